@@ -263,3 +263,250 @@ def replay(rec):
     print("real:", res.out.strip(), res.kind, res.err[-500:])
     print("expected:", rec.get("expected"))
     return 0
+
+
+# ------------------------------------------------------------------ /repo/testdata modules
+TESTDATA = ["uint_sizes.emb", "int_sizes.emb", "bcd.emb", "bits.emb", "float.emb", "enum.emb",
+            "anonymous_bits.emb", "explicit_sizes.emb", "start_size_range.emb", "alignments.emb",
+            "nested_structure.emb", "requires.emb"]
+PRELUDE_TY = {"UInt": "uint", "Int": "int", "Bcd": "bcd", "Flag": "flag", "Float": "float"}
+
+
+def testdata_leaves(ir):
+    """Independent walk of the IR of a testdata module: every unconditional, constant-located
+    physical scalar field of a parameterless top-level struct, directly or one `bits` level
+    down.  Returns (namespace, [(struct name, struct size, [Leaf])]); anything else is skipped."""
+    from compiler.util import ir_util
+    mod = ir.module[0]
+    ns_attr = ir_util.get_attribute(mod.attribute, "namespace")
+    if ns_attr is None:
+        return None, []
+    ns = ns_attr.string_constant.text.strip(":")
+    out = []
+
+    def const(e):
+        try:
+            return ir_util.constant_value(e)
+        except Exception:  # noqa: BLE001
+            return None
+
+    def scalar_type(field, unit):
+        """(model type, k bits) or None."""
+        t = field.type
+        if not t.has_field("atomic_type") or t.atomic_type.runtime_parameter:
+            return None
+        size = const(field.location.size)
+        if size is None:
+            return None
+        k = size * unit
+        td = ir_util.find_object(t.atomic_type.reference, ir)
+        if td.has_field("external"):
+            nm = td.name.canonical_name.object_path[-1]
+            if td.name.canonical_name.module_file != "" or nm not in PRELUDE_TY:
+                return None
+            return PRELUDE_TY[nm], k
+        if td.has_field("enumeration"):
+            mb = ir_util.get_integer_attribute(td.attribute, "maximum_bits")
+            sg = ir_util.get_boolean_attribute(td.attribute, "is_signed")
+            uw = S.least_width(mb)
+            return "enum%s%d" % ("s" if sg else "u", uw), k
+        return None
+
+    def usable(field):
+        return (not ir_util.field_is_virtual(field) and const(field.existence_condition) is True
+                and const(field.location.start) is not None and const(field.location.size) is not None
+                and not ir_util.get_attribute(field.attribute, "requires"))
+
+    for td in mod.type:
+        if not td.has_field("structure") or td.addressable_unit != 8 or td.runtime_parameter:
+            continue
+        fields = td.structure.field
+        phys = [f for f in fields if not ir_util.field_is_virtual(f)]
+        if not phys or not all(usable(f) or const(f.location.start) is not None and
+                               const(f.location.size) is not None for f in phys):
+            continue
+        size = max(const(f.location.start) + const(f.location.size) for f in phys)
+        leaves = []
+        for f in phys:
+            if not usable(f) or f.name.is_anonymous:
+                continue
+            start, nbytes = const(f.location.start), const(f.location.size)
+            bo = ir_util.get_attribute(f.attribute, "byte_order")
+            order = {"LittleEndian": "le", "BigEndian": "be", "Null": "null", None: None}[
+                bo.string_constant.text if bo else None]
+            name = f.name.name.text
+            if nbytes < 1 or nbytes > 8 or order is None:
+                continue
+            if order == "null" and nbytes != 1:
+                continue
+            st = scalar_type(f, 8)
+            if st is not None:
+                ty, k = st
+                cfg = S.Config(ty, k, k, 0, order, "direct", 1)
+                if S.config_valid(cfg):
+                    leaves.append(Leaf("%s()" % name, cfg, start))
+                continue
+            t = f.type
+            if t.has_field("atomic_type") and not t.atomic_type.runtime_parameter:
+                sub = ir_util.find_object(t.atomic_type.reference, ir)
+                if sub.has_field("structure") and sub.addressable_unit == 1 and not sub.runtime_parameter:
+                    c = nbytes * 8
+                    for g in sub.structure.field:
+                        if not usable(g) or g.name.is_anonymous:
+                            continue
+                        st = scalar_type(g, 1)
+                        if st is None:
+                            continue
+                        ty, k = st
+                        cfg = S.Config(ty, k, c, const(g.location.start), order, "offset", 1)
+                        if S.config_valid(cfg) and cfg.o + cfg.k <= c:
+                            leaves.append(Leaf("%s().%s()" % (name, g.name.name.text), cfg, start))
+        if leaves:
+            out.append((td.name.name.text, size, leaves))
+    return ns, out
+
+
+def testdata_driver(ns, structs, argts, include):
+    parts = [S.PRELUDE, '#include "%s"\n' % include]
+    i = 0
+    for sname, _size, leaves in structs:
+        for leaf in leaves:
+            ty, k = leaf.cfg.ty, leaf.cfg.k
+            if ty in ("uint", "int"):
+                call = "RunInt<%d>(v, x)" % S.argt_mask(leaf.cfg, argts[i])
+            elif ty == "bcd":
+                call = "RunBcd(v, x)"
+            elif ty == "flag":
+                call = "RunFlag(v, x)"
+            elif ty == "float":
+                call = "RunFloat<V, ::std::uint%d_t>(v, x)" % k
+            else:
+                call = "RunEnum<V, typename V::ValueType>(v, x)"
+            parts.append("static void Cfg%d(const Ctx &x) {  // %s.%s\n"
+                         "  const auto view = ::%s::Make%sView(x.buf, x.n);\n"
+                         "  const auto v = view.%s;\n  using V = decltype(view.%s);\n  %s;\n}\n" % (
+                             i, sname, leaf.cpp, ns, sname, leaf.cpp, leaf.cpp, call))
+            i += 1
+    parts.append("static const int kNumConfigs = %d;\n" % i)
+    parts.append("static void (*const kConfigs[])(const Ctx &) = {%s};\n" % ", ".join(
+        "Cfg%d" % j for j in range(i)))
+    parts.append(S.MAIN)
+    return "".join(parts)
+
+
+def testdata_part(chk, prop, tier, model_exe, stats, budget="run"):
+    """Scalar fields of /repo/testdata modules through their generated headers."""
+    r = common.rng(prop + "-testdata-" + tier + budget)
+    files = TESTDATA if tier == "thorough" else TESTDATA[:6]
+    hdir = os.path.join(common.scratch(), "tdhdr")
+    os.makedirs(hdir, exist_ok=True)
+    jobs, plans = [], []
+    for fn in files:
+        path = os.path.join(common.REPO, "testdata", fn)
+        try:
+            text = open(path).read()
+        except OSError:
+            continue
+        ir, errors, exc = emb.compile_text({"testdata/" + fn: text}, main="testdata/" + fn)
+        if exc is not None or errors or ir is None:
+            stats["testdata_not_compiled"] += 1
+            continue
+        ns, structs = testdata_leaves(ir)
+        if not structs:
+            stats["testdata_no_leaves"] += 1
+            continue
+        header, herr = emb.generate_header(ir)
+        if header is None or herr:
+            stats["testdata_no_header"] += 1
+            continue
+        inc = fn + ".h"
+        with open(os.path.join(hdir, inc), "w") as f:
+            f.write(header)
+        flat = [l for _n, _s, ls in structs for l in ls]
+        argts = [S.shape_argts(l.cfg, r) for l in flat]
+        jobs.append(dict(src_text=testdata_driver(ns, structs, argts, inc), name="td_" + fn[:-4],
+                         std="c++17", extra=("-I" + hdir,)))
+        plans.append((fn, structs, argts))
+    built = cppbuild.compile_many(jobs, workers=4)
+    for (binary, log), (fn, structs, argts) in zip(built, plans):
+        if binary is None:
+            stats["testdata_driver_not_compiled"] += 1
+            chk.extra.setdefault("testdata_compile_errors", []).append(fn + ": " + log[:300])
+            continue
+        lines, meta = [], []
+        i = 0
+        for sname, size, leaves in structs:
+            for leaf in leaves:
+                cfg = leaf.cfg
+                nb = cfg.c // 8
+                cs = [c for c in S.contents_for(cfg, r, 16) if len(c) == nb]
+                ws = S.write_values_for(cfg, argts[i], r, len(cs))
+                for cont, (t, v) in zip(cs, ws):
+                    data = [r.getrandbits(8) for _ in range(size)]
+                    data[leaf.byte_off:leaf.byte_off + nb] = cont
+                    lines.append("%d 0 %s %s %d" % (i, S.hexs(data), t, v))
+                    meta.append((fn, sname, leaf, data, t, v))
+                i += 1
+        res = cppbuild.run(binary, "\n".join(lines) + "\n", timeout=600)
+        out = res.out.split("\n")
+        if res.kind != "ok" or len(out) < len(lines):
+            k = len([o for o in out if "rd2=" in o])
+            fn_, sname, leaf, data, t, v = meta[min(k, len(meta) - 1)]
+            chk.violation("input", {"input": "testdata/" + fn_, "kind_of_input": "testdata",
+                                    "field": "%s.%s" % (sname, leaf.cpp), "data": S.hexs(data),
+                                    "argt": t, "value": v, "config": leaf.cfg._asdict(),
+                                    "observed": "%s: %s" % (res.kind, res.err[-1500:]),
+                                    "expected": "no sanitizer report / runtime check on a complete structure"})
+            continue
+        model = None
+        if model_exe:
+            model = common.Model(model_exe).ask([
+                S.model_line(leaf.cfg, data[leaf.byte_off:leaf.byte_off + leaf.cfg.c // 8], t, v, "opt")
+                for _f, _s, leaf, data, t, v in meta])
+        for j, (fn_, sname, leaf, data, t, v) in enumerate(meta):
+            chk.count()
+            cfg = leaf.cfg
+            nb = cfg.c // 8
+            cont = data[leaf.byte_off:leaf.byte_off + nb]
+            rl = out[j]
+            stats["testdata:" + cfg.ty] += 1
+            d = S.parse_line(rl)
+            after = d.get("after", "")
+            whole = list(bytes.fromhex(after)) if after not in ("", "-") else []
+            outside_ok = (len(whole) == len(data) and whole[:leaf.byte_off] == data[:leaf.byte_off]
+                          and whole[leaf.byte_off + nb:] == data[leaf.byte_off + nb:])
+            local = rl.replace("after=" + after, "after=" + S.hexs(whole[leaf.byte_off:leaf.byte_off + nb]))
+            why = scalarcheck.compare_with_spec(prop, (cfg, cont, t, v), local)
+            if not why and prop == "C03" and not outside_ok:
+                why = "bytes outside the field's container changed"
+            if d.get("cmp") == "1":
+                chk.nontrivial(("testdata", fn_, sname, leaf.cpp))
+            fk = S.finding_key(cfg, v)
+            if why:
+                if chk.known_finding(fk) is None:
+                    stats["failing_cases"] += 1
+                    dedup = ("testdata", fn_, sname, leaf.cpp, why.split(":")[0])
+                    if dedup in stats["_reported"] or len(stats["_reported"]) >= 12:
+                        continue
+                    stats["_reported"].add(dedup)
+                else:
+                    stats["known_finding_cases"] += 1
+                chk.violation("input", {"input": "testdata/" + fn_, "kind_of_input": "testdata",
+                                        "field": "%s.%s" % (sname, leaf.cpp), "config": cfg._asdict(),
+                                        "data": S.hexs(data), "argt": t, "value": v,
+                                        "observed": rl, "expected": why}, key=fk)
+            elif model is not None:
+                keys = scalarcheck.KEYS[prop]
+                if scalarcheck.project(model[j], keys) != scalarcheck.project(local, keys):
+                    stats["model_disagreements"] += 1
+                    if stats["model_disagreements"] <= 8:
+                        chk.violation("correspondence", {
+                            "input": "testdata/" + fn_, "kind_of_input": "testdata",
+                            "field": "%s.%s" % (sname, leaf.cpp), "config": cfg._asdict(),
+                            "data": S.hexs(data), "argt": t, "value": v, "observed": rl,
+                            "model": model[j],
+                            "expected": "the generated view behaves per the spec; the model of the "
+                                        "view expected from the IR differs",
+                            "theorem_or_correspondence": "view-type selection of header_generator vs SCALAR"},
+                            found_input=False)
+    stats["testdata_modules"] = len(plans)
